@@ -544,6 +544,26 @@ def run_c12(pid):
     for off in (U - 1, U, U - 2, (1 << 63), (1 << 63) - 1, U // 588, U // 588 + 1):
         add("cue", "minute-boundary", text="TRACK 01 AUDIO\n  INDEX 01 0\nTRACK 02 AUDIO\n  INDEX 01 %d\n" % off, total=588 * 10 ** 6 + 1)
     # non-ASCII arguments (multi-byte characters at every offset) where the importer slices fixed-width fields
+    # ... and characters that std's Unicode predicates (is_numeric, is_alphanumeric, is_whitespace, to_uppercase) class with ASCII digits,
+    # letters and blanks: Arabic-Indic / full-width / mathematical digits, superscripts, fractions, Roman numerals, full-width letters,
+    # letters whose case mapping changes their length, non-ASCII blanks
+    UNI = ("\u0663", "\u00b2", "\u00bd", "\u2167", "\uff13", "\U0001D7D8", "\u0969", "\uff21", "\u03a9", "\u00df", "\u0130", "\u01c5",
+           "\u00a0", "\u2003", "\u3000", "\u0301")
+    for ch in UNI:
+        for pos in (0, 1, 5, 11, 12, 13):
+            cat = "1234567890123"
+            add("cue", "unicode-class-argument", text="CATALOG %s\nTRACK 01 AUDIO\n  INDEX 01 00:00:00\n" % (cat[:pos] + ch + cat[pos + 1:]), total=588 * 10 ** 6)
+            add("cue", "unicode-class-argument", text="CATALOG %s\nTRACK 01 AUDIO\n  INDEX 01 0\n" % (cat[:pos] + ch + cat[pos + 1:]), total=588 * 10 ** 6 + 1)
+            isrc = "USABC0012345"
+            add("cue", "unicode-class-argument", text="TRACK 01 AUDIO\n  ISRC %s\n  INDEX 01 00:00:00\n" % (isrc[:pos] + ch + isrc[pos + 1:]), total=588 * 10 ** 6)
+        for tmpl in ("TRACK %s AUDIO\n  INDEX 01 00:00:00\n", "TRACK 0%s AUDIO\n  INDEX 01 00:00:00\n", "TRACK 01 AUDIO\n  INDEX %s 00:00:00\n",
+                     "TRACK 01 AUDIO\n  INDEX 0%s 00:00:00\n", "TRACK 01 AUDIO\n  INDEX 01 %s0:00:00\n", "TRACK 01 AUDIO\n  INDEX 01 00:%s0:00\n",
+                     "TRACK 01 AUDIO\n  INDEX 01 00:0%s:00\n", "TRACK 01 AUDIO\n  INDEX 01 00:00:%s0\n", "TRACK 01 AUDIO\n  INDEX 01 00:00:0%s\n",
+                     "TRACK 01 AUDIO\n  INDEX 01 %s\n", "TRACK 01 AUDIO\n  INDEX 01 1%s\n", "TRACK 01 AUDIO\n  FLAGS %s\n  INDEX 01 00:00:00\n",
+                     "TRACK 01 AUDIO\n  FLAGS PRE%s\n  INDEX 01 00:00:00\n", "TRACK 01 AUDI%s\n  INDEX 01 00:00:00\n", "TRAC%s 01 AUDIO\n  INDEX 01 00:00:00\n",
+                     "TRACK%s01 AUDIO\n  INDEX 01 00:00:00\n", "TRACK 01 AUDIO\n%sINDEX 01 00:00:00\n", "%sTRACK 01 AUDIO\n  INDEX 01 00:00:00\n",
+                     "TRACK 01 AUDIO\n  INDEX 01 00:00:00%s\n", "CATALOG \"%s\"\nTRACK 01 AUDIO\n  INDEX 01 00:00:00\n", "TRACK 01 AUDIO\n  ISRC %s\n  INDEX 01 00:00:00\n"):
+            add("cue", "unicode-class-argument", text=tmpl % ch, total=588 * 10 ** 6 + (1 if "INDEX 01 %s\n" in tmpl or "INDEX 01 1%s" in tmpl else 0))
     for ch in ("\u00e9", "\u8a9e", "\U0001F600"):
         for pos in range(0, 12):
             isrc = "USABC0012345"
